@@ -32,14 +32,22 @@ def igate_job(name, files, main, backend, channels=("oc", "od", "oh"), opts=(), 
     argv += list(opts)
     argv += ["-srcdir", srcdir] + list(main)
     return {"name": name, "tool": "interrogate", "files": {"src/" + k: v for k, v in files.items()},
-            "argv": argv, "outputs": outputs}
+            "argv": argv, "outputs": outputs, "nfiles": len(list(main))}
 
 
 def module_job(name, dbs, backend, module="m", extra=()):
     """An `interrogate_module` job.  dbs: {relative path: bytes-as-latin1 text} of .in files (in cwd)."""
     outputs = {"oc": "out-oc/%s_module.cxx" % name}
     argv = ["-oc", outputs["oc"], "-module", module, "-library", module, backend] + list(extra) + list(dbs.keys())
-    return {"name": name, "tool": "interrogate_module", "files": dict(dbs), "argv": argv, "outputs": outputs}
+    return {"name": name, "tool": "interrogate_module", "files": dict(dbs), "argv": argv, "outputs": outputs, "nfiles": len(dbs)}
+
+
+def files_first(job):
+    """The same job with its file arguments ahead of the options (both tools accept them anywhere on the command line)."""
+    n = job.get("nfiles", 0)
+    if not n:
+        return job
+    return dict(job, argv=job["argv"][-n:] + job["argv"][:-n])
 
 
 def materialise(job, root):
